@@ -104,6 +104,10 @@ CODERS = {
     "deflate>lzma2": [(b"\x04\x01\x08", enc_deflate), (b"\x21", enc_lzma2)],
     "lzma2>deflate": [(b"\x21", enc_lzma2), (b"\x04\x01\x08", enc_deflate)],
     "bzip2>copy": [(b"\x04\x02\x02", enc_bzip2), (b"\x00", enc_copy)],
+    # three and four coders in one folder (four is the most py7zr accepts)
+    "delta+delta+lzma2": [(b"\x03", lambda d: enc_delta(d, 1)), (b"\x03", lambda d: enc_delta(d, 3)), (b"\x21", enc_lzma2)],
+    "delta+delta+delta+lzma2": [(b"\x03", lambda d: enc_delta(d, 2)), (b"\x03", lambda d: enc_delta(d, 1)),
+                                (b"\x03", lambda d: enc_delta(d, 4)), (b"\x21", enc_lzma2)],
 }
 
 
